@@ -67,9 +67,23 @@ def kani_playback(failure):
     tgt = os.path.join(BUILD, 'kani-target', cfg + '-playback')
     rc, out, err, _ = run(['cargo', 'kani', '--target-dir', tgt, '--harness', f'{fam}::{h}', '-Z', 'concrete-playback',
                            '--concrete-playback=inplace', '--output-format', 'terse'], cwd=dst, timeout=900)
-    lib = open(os.path.join(dst, 'src', 'lib.rs')).read()
+    lib_path = os.path.join(dst, 'src', 'lib.rs')
+    lib = open(lib_path).read()
+    # two failed checks with the same concrete values make Kani write the same #[test] twice: keep the first
+    seen = set()
+
+    def dedupe(m):
+        if m.group(2) in seen:
+            return '\n'
+        seen.add(m.group(2))
+        return m.group(0)
+    lib2 = re.sub(r'((?:\s*///[^\n]*\n)+)\s*#\[test\]\s*fn (kani_concrete_playback_\w+)\(\) \{.*?\n\s*\}\n', dedupe, lib, flags=re.S)
+    if lib2 != lib:
+        lib = lib2
+        with open(lib_path, 'w') as f:
+            f.write(lib)
     tests = re.findall(r'((?:\s*///[^\n]*\n)+)\s*#\[test\]\s*fn (kani_concrete_playback_%s_\d+)\(\) \{(.*?)\n\s*\}\n' % re.escape(h), lib, re.S)
-    tests = [t for t in tests if 'Check for `cover`' not in t[0]]
+    tests = [t for t in tests if 'Check for `cover`' not in t[0] and 'Check for `NaN`' not in t[0]]
     if not tests:
         return {'harness': f'{fam}::{h}', 'kani_output': (out + err)[-1500:], 'reproduced_on_real_code': False,
                 'note': 'Kani produced no concrete values for the failed check'}
